@@ -1251,7 +1251,7 @@ def _loader_cases():
     for t in ['"ba\\', '"unterminated', 'zfoo 2 m\n"ba\\', 'zfoo 2 m\n!include extra.units', 'zfoo 2 m\n! (', '!', '!category', '!category x', '!symbol a', 'zs {', 'zs {\n p', 'zs {\n p const',
               'zs {\n p const q', 'zs {\n p q 1 m /', 'zs {\n p q 1 m / r', '??', '?? doc', 'za 1 +', 'za (', 'za ((((', 'za 1|', 'za 2^', 'za -', 'za /', 'za 1 of', 'za x of', 'zp- ', 'zp-- ', 'zq ?', 'zq ? (',
               '\\', '\\\r', '\\\r\n', 'za 1e', 'za 1e-', 'za .', 'za 1.e5', '# c', 'za 1 # c', 'za\t2\tm', '}', '{', ') ) )', 'za 1|0', 'za- 1|0', 'za- 0^-1', 'za 0^-1', 'zq ? length^-3 time',
-              'zb !\nzb !', 'zu 2 m\nzu 3 m', 'zs {\n d const v 0 kg\n}', 'zs {\n d mass 1 kg / volume 0 m^3\n}', 'zs {\n d mass 1 kg / volume 1 s\n d mass 2 kg / volume 1 s\n}']:
+              'zb !\nzb !', 'zu 2 m\nzu 3 m', 'zfoo- 1^-2147483648', 'zfoo- 1^2147483647', 'zfoo 1^-2147483648', 'za ? length^9223372036854775807\nzb ? za^2', 'za ? length^-9223372036854775808', 'za ? length^4611686018427387904\nzb ? za za', 'zs {\n d const v 0 kg\n}', 'zs {\n d mass 1 kg / volume 0 m^3\n}', 'zs {\n d mass 1 kg / volume 1 s\n d mass 2 kg / volume 1 s\n}']:
         c.append((t, 'any'))
         c.append((t + '\n', 'any'))
     for t, qs in (('zfoo {\n p out 5 kg / in 0 m\n}\n', ['p of zfoo', 'p of (3 zfoo)', 'out of (2 m zfoo)']), ('zz {\n molar_mass mass 5 g / amount 0 mol\n}\n', ['molar_mass of zz', 'mass of (2 mol zz)']),
